@@ -153,6 +153,43 @@ theorem result_resolves_placeholders_unknown_length_counterexample :
     resolvedIn (.set (.list .string)) (.list (.set .dyn)) = false := by
   refine ⟨by decide, rfl, rfl, by decide⟩
 
+/-- UNKNOWN AND NULL INPUTS DO RESOLVE PLACEHOLDERS — unlike empty known collections.  An unmarked
+unknown or null value whose type has no placeholder, converted by any conversion `GetConversion*`
+returned to a target of the same shape (`D08B.covered`: lists / sets against lists / sets, maps against
+maps, tuples against tuples of the same length, objects against objects or maps, at every depth —
+the pairs for which `dynamicReplace` does not consult `unify`; placeholders anywhere in the
+target), comes back with a type WITHOUT any placeholder: each one was filled from the input's type.
+For every environment and fuel. -/
+theorem unknown_null_resolve_placeholders_partial (E : Env) (fuel : Nat) (uns : Bool) (want : Ty) (p : Plan)
+    (v r : Value) (hg : getConv E v.ty want uns = some p) (hm : v.isMarked = false)
+    (hl : (!v.isKnown || v.isNull) = true) (hod : want.isDyn = false) (hd : Ty.hasDyn v.ty = false)
+    (hc : D08B.covered v.ty want.stripOpt = true) (h : apply E (fuel + 1) p v = .ok r) :
+    Ty.hasDyn r.ty = false ∧ resolvedIn v.ty r.ty = true := by
+  obtain ⟨c, _, rfl⟩ := Option.map_eq_some_iff.mp hg
+  have key : Ty.hasDyn r.ty = false := by
+    simp only [apply, applyStep, hm, hod, hl, Bool.false_eq_true, if_false, if_true] at h
+    cases hdr : dynRepl E v.ty want.stripOpt with
+    | ok t =>
+      have ht := D08B.dynRepl_noDyn E v.ty want.stripOpt t hd hc hdr
+      rw [hdr] at h
+      simp only at h
+      split at h
+      · obtain ⟨rng, _, h⟩ := Convert.Res.bind_eq_ok h
+        rw [prepareUnknownResult_ty h]; exact ht
+      · simp at h; subst h; exact ht
+    | err _ => rw [hdr] at h; simp at h
+    | panic _ => rw [hdr] at h; simp at h
+    | unmodelled => rw [hdr] at h; simp at h
+  exact ⟨key, resolvedIn_noDyn _ _ key⟩
+
+/-- the contrast with `result_resolves_placeholders_counterexample`: the UNKNOWN and the NULL list of maps
+of bools, converted to list(map(placeholder)), are a list(map(bool)) — the empty known list is not -/
+example : D08B.covered (.list (.map .bool)) (.list (.map .dyn)) = true := by decide
+example : convert Env.simple 4 ⟨.list (.map .bool), .unk .unref⟩ (.list (.map .dyn)) =
+    .ok ⟨.list (.map .bool), .unk (.coll .u 0 9223372036854775807)⟩ := rfl
+example : convert Env.simple 4 ⟨.list (.map .bool), .null⟩ (.list (.map .dyn)) =
+    .ok ⟨.list (.map .bool), .null⟩ := rfl
+
 /-! ## Identity and idempotence -/
 
 /-- Converting a value to its own type (disregarding annotations of the target)
